@@ -671,8 +671,13 @@ fn shl(a: Fr, b: Fr) -> Fr {
     }
 
     let n = b.into_bigint().0[0] as u32;
-    let a = a.into_bigint();
-    Fr::from_bigint(a << n).unwrap()
+    // circom: (a << n) & (2^254 - 1), reduced modulo the field order
+    let mut d = a.into_bigint() << n;
+    d.0[3] &= (1u64 << (Fr::MODULUS_BIT_SIZE - 192)) - 1;
+    if d >= Fr::MODULUS {
+        d.sub_with_borrow(&Fr::MODULUS);
+    }
+    Fr::from_bigint(d).unwrap()
 }
 
 fn shr(a: Fr, b: Fr) -> Fr {
